@@ -529,7 +529,7 @@ def check(prop, tier, seed, cfg, replay=None):
             "evaluations": result["evaluations"],
             "distinct_nontrivial": result["distinct_nontrivial"],
             "rule": result["rule"],
-            "samples": result["samples"][:8],
+            "samples": (result.get("samples") or [])[:8] or [{"note": "no sample recorded by the harness"}],
             "distribution": result["distribution"],
             "exhaustive": result["exhaustive"],
             "extra": result["extra"],
